@@ -35,6 +35,29 @@ EQ_CONNECT, EQ_WELD = 0, 1
 OBJ_BODY, OBJ_SITE = 1, 6
 
 
+def engine_workaround():
+  """wsym.core drops the OUTER loop's continue/break guards inside a nested loop (Interp.active only looks at the innermost
+  loop and for_/while_ start from self.guard).  _flood_fill has `continue` followed by an inner `while`, so the DFS would
+  also run on the continue path.  Local fix (engine files are not mine to edit): fold the active guard into self.guard
+  before entering a loop.  Idempotent."""
+  I = core.Interp
+  if getattr(I, "_c28_loop_guard_fix", False):
+    return
+  for name in ("for_", "while_"):
+    orig = getattr(I, name)
+
+    def wrapped(self, fr, s, _orig=orig):
+      outer = self.guard
+      self.guard = self.active(fr)
+      try:
+        return _orig(self, fr, s)
+      finally:
+        self.guard = outer
+
+    setattr(I, name, wrapped)
+  I._c28_loop_guard_fix = True
+
+
 def xml(jac, ntree):
   extra = '<body name="d" pos="3 0 1"><joint name="d0" type="slide"/><geom name="gd" size=".1"/><site name="sd"/></body>' if ntree >= 4 else ""
   return f"""<mujoco>
@@ -312,43 +335,110 @@ def map_lemmas(S, ref, l, nis):
   return out
 
 
-def spec_map(S, ref, l, nis):
-  """stage C (compute_island_mapping) relative to the labels l / count nis it is given"""
+def row_islands_ref(S, ref, l):
+  out = []
+  for k in range(S.njmax):
+    v = -1
+    for t in range(S.ntree - 1, -1, -1):
+      v = ite(ref["touch"][k][t], l[t], v)
+    out.append(v)
+  return out
+
+
+def type_classes(S):
+  iseq = [cmp("==", S.efc_type[k], EQUALITY) for k in range(S.njmax)]
+  isfr = [Or(cmp("==", S.efc_type[k], FRICTION_DOF), cmp("==", S.efc_type[k], FRICTION_TENDON)) for k in range(S.njmax)]
+  return iseq, isfr
+
+
+def facts_A(S, ref, t):
+  """cut after _compute_efc_tree: efc_tree[k] is a tree the row touches, -1 if it touches none"""
+  n = S.ntree
+  return {
+    f"efc_tree/row{k}": (Implies(ref["act"][k], Or(And(cmp("==", t[k], -1), Not(Or(*ref["touch"][k]))), And(inrange(t[k], 0, n), sel(ref["touch"][k], t[k])))), f"the tree recorded for row {k} is not one of the trees the row touches (-1 iff it touches none)")
+    for k in range(S.njmax)
+  }
+
+
+def facts_B(S, ref, l, nis, t, B):
+  """cut after _island_count_dofs / _island_count_constraints: per-dof / per-row islands and the per-island counts"""
   n, nv, nrow = S.ntree, S.nv, S.njmax
   act = ref["act"]
-  rowisl = []
-  for k in range(nrow):
-    v = -1
-    for t in range(n - 1, -1, -1):
-      v = ite(ref["touch"][k][t], l[t], v)
-    rowisl.append(v)
-  dofisl = [sel(l, S.dof_treeid[j]) for j in range(nv)]
+  iseq, isfr = type_classes(S)
   Q = {}
   for j in range(nv):
-    Q[f"dof_island/dof{j}"] = (cmp("==", S.dof_island[j], dofisl[j]), True, f"dof_island[{j}] is not the island of the dof's tree")
+    Q[f"dof_island/dof{j}"] = (cmp("==", B["dof"][j], sel(l, S.dof_treeid[j])), f"dof_island[{j}] is not the island of the dof's tree")
   for k in range(nrow):
-    Q[f"efc_island/row{k}"] = (cmp("==", S.efc_island[k], rowisl[k]), act[k], f"efc.island[{k}] is not the island of the trees the row touches")
-  nv_exp = [count([cmp("==", dofisl[j], i) for j in range(nv)]) for i in range(n)]
-  nefc_exp = [count([And(act[k], cmp("==", rowisl[k], i)) for k in range(nrow)]) for i in range(n)]
-  iseq = [cmp("==", S.efc_type[k], EQUALITY) for k in range(nrow)]
-  isfr = [Or(cmp("==", S.efc_type[k], FRICTION_DOF), cmp("==", S.efc_type[k], FRICTION_TENDON)) for k in range(nrow)]
-  ne_exp = [count([And(act[k], iseq[k], cmp("==", rowisl[k], i)) for k in range(nrow)]) for i in range(n)]
-  nf_exp = [count([And(act[k], isfr[k], cmp("==", rowisl[k], i)) for k in range(nrow)]) for i in range(n)]
+    Q[f"efc_island/row{k}"] = (Implies(act[k], cmp("==", B["e"][k], ite(cmp(">=", t[k], 0), sel(l, t[k]), -1))), f"efc.island[{k}] is not the island of the trees the row touches")
+  for i in range(n):
+    live = cmp("<", i, nis)
+    Q[f"count/island_nv/{i}"] = (Implies(live, cmp("==", B["nv"][i], count([cmp("==", B["dof"][j], i) for j in range(nv)]))), f"island_nv[{i}] is not the number of dofs of island {i}")
+    Q[f"count/island_nefc/{i}"] = (Implies(live, cmp("==", B["nefc"][i], count([And(act[k], cmp("==", B["e"][k], i)) for k in range(nrow)]))), f"island_nefc[{i}] is not the number of active rows of island {i}")
+    Q[f"island_ne/{i}"] = (Implies(live, cmp("==", B["ne"][i], count([And(act[k], iseq[k], cmp("==", B["e"][k], i)) for k in range(nrow)]))), f"island_ne[{i}] is not the number of equality rows of island {i}")
+    Q[f"island_nf/{i}"] = (Implies(live, cmp("==", B["nf"][i], count([And(act[k], isfr[k], cmp("==", B["e"][k], i)) for k in range(nrow)]))), f"island_nf[{i}] is not the number of friction rows of island {i}")
+  return Q
+
+
+def glue_B(S, ref, l, nis, B):
+  """pure consequences of facts_A/facts_B used by the final queries"""
+  n, nv, nrow = S.ntree, S.nv, S.njmax
+  act = ref["act"]
+  rowref = row_islands_ref(S, ref, l)
+  Q = {}
+  for k in range(nrow):
+    Q[f"glue/efc_island/row{k}"] = Implies(act[k], And(cmp("==", B["e"][k], rowref[k]), inrange(B["e"][k], -1, nis)))
+  Q["glue/dof-islands-in-range"] = And(*[inrange(x, -1, nis) for x in B["dof"]])
+  Q["glue/nidof"] = cmp("==", sumlive(B["nv"], nis), count([cmp(">=", x, 0) for x in B["dof"]]))
+  Q["glue/ntot"] = cmp("==", sumlive(B["nefc"], nis), count([And(act[k], cmp(">=", B["e"][k], 0)) for k in range(nrow)]))
+  return Q
+
+
+def sumlive(xs, nis):
+  s = 0
+  for i, x in enumerate(xs):
+    s = arith("+", s, ite(cmp("<", i, nis), x, 0))
+  return s
+
+
+def spec_map(S, ref, l, nis, B=None):
+  """compute_island_mapping relative to the labels l / count nis it is given.  B = None: everything against the reference
+  (used on concrete replays); B = constants of the cut after the counting kernels (their relation to the reference is
+  facts_B / glue_B): the queries about the arrays that were cut are then issued by facts_B"""
+  n, nv, nrow = S.ntree, S.nv, S.njmax
+  act = ref["act"]
+  iseq, isfr = type_classes(S)
+  Q = {}
+  if B is None:
+    rowisl = row_islands_ref(S, ref, l)
+    dofisl = [sel(l, S.dof_treeid[j]) for j in range(nv)]
+    nv_exp = [count([cmp("==", dofisl[j], i) for j in range(nv)]) for i in range(n)]
+    nefc_exp = [count([And(act[k], cmp("==", rowisl[k], i)) for k in range(nrow)]) for i in range(n)]
+    ne_exp = [count([And(act[k], iseq[k], cmp("==", rowisl[k], i)) for k in range(nrow)]) for i in range(n)]
+    nf_exp = [count([And(act[k], isfr[k], cmp("==", rowisl[k], i)) for k in range(nrow)]) for i in range(n)]
+    nidof_exp = count([cmp(">=", dofisl[j], 0) for j in range(nv)])
+    ntot_exp = count([And(act[k], cmp(">=", rowisl[k], 0)) for k in range(nrow)])
+    for j in range(nv):
+      Q[f"dof_island/dof{j}"] = (cmp("==", S.dof_island[j], dofisl[j]), True, f"dof_island[{j}] is not the island of the dof's tree")
+    for k in range(nrow):
+      Q[f"efc_island/row{k}"] = (cmp("==", S.efc_island[k], rowisl[k]), act[k], f"efc.island[{k}] is not the island of the trees the row touches")
+    for i in range(n):
+      live = cmp("<", i, nis)
+      Q[f"island_ne/{i}"] = (cmp("==", S.island_ne[i], ne_exp[i]), live, f"island_ne[{i}] is not the number of equality rows of island {i}")
+      Q[f"island_nf/{i}"] = (cmp("==", S.island_nf[i], nf_exp[i]), live, f"island_nf[{i}] is not the number of friction rows of island {i}")
+  else:
+    rowisl, dofisl, nv_exp, nefc_exp, ne_exp, nf_exp = B["e"], B["dof"], B["nv"], B["nefc"], B["ne"], B["nf"]
+    nidof_exp, ntot_exp = sumlive(nv_exp, nis), sumlive(nefc_exp, nis)
   idofadr_exp, iefcadr_exp = [], []
   s1, s2 = 0, 0
   for i in range(n):
     idofadr_exp.append(s1)
     iefcadr_exp.append(s2)
     s1, s2 = arith("+", s1, nv_exp[i]), arith("+", s2, nefc_exp[i])
-  nidof_exp = count([cmp(">=", dofisl[j], 0) for j in range(nv)])
-  ntot_exp = count([And(act[k], cmp(">=", rowisl[k], 0)) for k in range(nrow)])
   for i in range(n):
     live = cmp("<", i, nis)
     Q[f"island_nv/{i}"] = (cmp("==", S.island_nv[i], nv_exp[i]), live, f"island_nv[{i}] is not the number of dofs of island {i}")
     Q[f"island_idofadr/{i}"] = (cmp("==", S.island_idofadr[i], idofadr_exp[i]), live, f"island_idofadr[{i}] is not the prefix sum of island_nv")
     Q[f"island_nefc/{i}"] = (cmp("==", S.island_nefc[i], nefc_exp[i]), live, f"island_nefc[{i}] is not the number of active rows of island {i}")
-    Q[f"island_ne/{i}"] = (cmp("==", S.island_ne[i], ne_exp[i]), live, f"island_ne[{i}] is not the number of equality rows of island {i}")
-    Q[f"island_nf/{i}"] = (cmp("==", S.island_nf[i], nf_exp[i]), live, f"island_nf[{i}] is not the number of friction rows of island {i}")
     Q[f"island_iefcadr/{i}"] = (cmp("==", S.island_iefcadr[i], iefcadr_exp[i]), live, f"island_iefcadr[{i}] is not the prefix sum of island_nefc")
     mins = nv
     for j in range(nv - 1, -1, -1):
@@ -383,6 +473,9 @@ def spec_map(S, ref, l, nis):
     Q[f"efc2iefc.iefc2efc/iefc{c}"] = (ok, g, f"map_iefc2efc[{c}] is not an active island row mapped back to {c}")
     Q[f"efc_islandid/iefc{c}"] = (cmp("==", S.efc_islandid[c], sel(rowisl, r)), g, f"efc_islandid[{c}] is not the island of row map_iefc2efc[{c}]")
   return Q
+
+
+REPLAY_AS = {"efc_tree/": "efc_island/", "count/island_nv/": "island_nv/", "count/island_nefc/": "island_nefc/"}
 
 
 # ------------------------------------------------------------------------------------------------ views
@@ -424,6 +517,7 @@ def symbolic_run(ctx, jac, ntree, njmax):
   Every piece is then proved for ALL inputs satisfying the proved postcondition of the previous piece."""
   from mujoco_warp._src import island
 
+  engine_workaround()
   mjm, m, d = build(jac, ntree, njmax)
   msym = {"m." + n for n in MODEL_SYM}
   m2 = host.shim_dataclass(m, "m.", symbolic=lambda n: n in msym)
@@ -467,11 +561,25 @@ def symbolic_run(ctx, jac, ntree, njmax):
       ti.d[0] = list(cuts["l"])
       ni.d[0] = [cuts["nis"]]
       cuts["nobl"]["fill1"] = len(hr.obl)
+    if kernel.key == "_island_count_constraints" and "t" not in cuts:
+      cell = args[2].ref.cell  # efc_tree scratch written by _compute_efc_tree
+      cuts["t_def"] = list(cell.d[0])
+      cuts["t"] = [z3.Int(f"efc_tree!{k}") for k in range(cell.size)]
+      cell.d[0] = list(cuts["t"])
+      cuts["nobl"]["A"] = len(hr.obl)
+    if kernel.key == "_island_scan_sizes" and "B" not in cuts:
+      cuts["B_def"], cuts["B"] = {}, {}
+      for name, key in [("dof_island", "dof"), ("island_nv", "nv"), ("efc.island", "e"), ("island_nefc", "nefc"), ("island_ne", "ne"), ("island_nf", "nf")]:
+        cell = darrs[name].ref.cell
+        cuts["B_def"][key] = list(cell.d[0])
+        cuts["B"][key] = [z3.Int(f"{key}!{i}") for i in range(cell.size)]
+        cell.d[0] = list(cuts["B"][key])
+      cuts["nobl"]["B"] = len(hr.obl)
 
   with host.HostRun(mode="exec", unroll=unroll, on_launch=on_launch) as hr:
     island.island(m2, d2)
     island.compute_island_mapping(m2, d2)
-  if not cuts["rows"] or "c_at_fill" not in cuts or "l" not in cuts:
+  if not cuts["rows"] or "c_at_fill" not in cuts or "l" not in cuts or "t" not in cuts or "B" not in cuts:
     raise core.Unsupported("island pipeline no longer launches _tree_edges / _flood_fill / _init_island_arrays: cut points not found")
   for e in hr.events:
     if e.kind == "launch":
@@ -571,15 +679,29 @@ def conc(x):
 
 
 def run_replay(path):
+  """replay in a subprocess (a mutated kernel may write out of bounds and corrupt this process) -> (reproduced, text)"""
+  import subprocess
+
+  sp = json.load(open(path))
+  q, stage = sp["query"], sp["stage"]
+  is_obl = "/bounds/" in "/" + q or "/unwind/" in "/" + q
+  cmd = [sys.executable, "-m", "checks.c28", path] + (["--debug"] if is_obl else [])
+  p = subprocess.run(cmd, cwd=report.VERIF, env=dict(os.environ), capture_output=True, text=True, timeout=900)
+  out = (p.stdout + p.stderr).strip()
+  if p.returncode not in (0, 3):
+    return True, f"the real {stage} stage crashed / aborted on inputs satisfying the preconditions (rc={p.returncode}{', bounds-checked build' if is_obl else ''}): {out[-300:]}"
+  for line in out.splitlines():
+    if line.startswith("REPRODUCED: "):
+      return True, line[len("REPRODUCED: ") :]
+    if line.startswith("NOT-REPRODUCED: "):
+      return False, line[len("NOT-REPRODUCED: ") :]
+  return False, f"replay subprocess rc={p.returncode}: {out[-300:]}"
+
+
+def replay_inproc(path):
   """-> (reproduced, text)"""
   sp = json.load(open(path))
   q, stage, cut = sp["query"], sp["stage"], sp.get("cut")
-  if q.split("/")[-2 if stage == "row" else 0].startswith(("bounds", "unwind")) or q.startswith(("bounds/", "unwind/")):
-    import subprocess
-
-    p = subprocess.run([sys.executable, "-m", "checks.c28", path, "--debug"], cwd=report.VERIF, env=dict(os.environ), capture_output=True, text=True, timeout=600)
-    crashed = p.returncode not in (0, 3)
-    return crashed, f"debug-build run of the real {stage} stage rc={p.returncode}: {(p.stdout + p.stderr)[-300:]}"
   S, tt = run_real(sp["config"], sp["arrays"], stage, cut)
   n = S.ntree
   if stage != "fill":
@@ -602,6 +724,9 @@ def run_replay(path):
   else:
     if [int(x) for x in ref["label"]] != list(cut["l"]) or int(ref["nisland"]) != cut["nis"]:
       return False, f"replay labels {cut['l']} are not the reference labels {ref['label']} of the rows"
+    for a, b in REPLAY_AS.items():
+      if q.startswith(a):
+        q = b + q[len(a) :]
     Q = spec_map(S, ref, cut["l"], cut["nis"])
     outs = {k: getattr(S, k.replace("efc.island", "efc_island").replace(".", "_")) for k in DATA_OUT}
     extra = f"labels {cut['l']} nisland {cut['nis']}; real compute_island_mapping outputs: {outs}"
@@ -728,23 +853,51 @@ def unit_islands(jac, ntree, njmax, part):
       ctx.prove(sessG, qn, goal, True, desc=what)
 
   def run_map(ctx, S, hr, ref, pre, cuts, names, cfg, cell_of, obligations):
-    # ---- compute_island_mapping given tree_island = reference labels (what the 'graph' unit guarantees)
-    n, l, nis = S.ntree, cuts["l"], cuts["nis"]
+    # ---- compute_island_mapping given tree_island = reference labels (what the 'graph' unit guarantees), with two more
+    # cuts: efc_tree (t) after _compute_efc_tree, per-dof/per-row islands and counts (B) after the counting kernels
+    n, l, nis, t, B, Bd = S.ntree, cuts["l"], cuts["nis"], cuts["t"], cuts["B"], cuts["B_def"]
     ctx.assume("compute_island_mapping: tree_island / nisland are the component labels of the constraint graph (proved in the 'graph' unit: edges/*, fill/*, glue/*)")
-    exact = [cmp("==", l[a], ref["label"][a]) for a in range(n)] + [cmp("==", nis, ref["nisland"])]
+    rp = lambda qn: replayer(ctx, cfg, cell_of, S, cuts, qn, "map")
+    zb = core.zbool
+    exact = [zb(cmp("==", l[a], ref["label"][a])) for a in range(n)] + [zb(cmp("==", nis, ref["nisland"]))]
     lem = map_lemmas(S, ref, l, nis)
-    sessL = ctx.session(pre + [core.zbool(x) for x in exact])
+    sessL = ctx.session(pre + exact)
+    ctx.reach(sessL, "twin:map-two-islands", cmp("==", nis, 2))
     for qn, f in lem.items():
       ctx.prove(sessL, qn, f, True, names=names, desc="lemma about the reference labels")
-    sessC = ctx.session(pre + [core.zbool(x) for x in exact] + [core.zbool(f) for f in lem.values()])
-    ctx.reach(sessC, "twin:map-two-islands", cmp("==", nis, 2))
-    dof_q = ("dof_island/", "island_nv/", "island_idofadr/", "island_dofadr/", "nidof", "dof2idof", "idof2dof", "dof_islandid/")
-    for qn, (goal, guard, what) in spec_map(S, ref, l, nis).items():
-      if qn.startswith(dof_q) != (part == "dofs"):
-        continue
-      ctx.prove(sessC, qn, goal, guard, names=names, replay=replayer(ctx, cfg, cell_of, S, cuts, qn, "map"), desc=f"{jac} ntree={ntree}: {what}")
+    base = pre + exact + [zb(f) for f in lem.values()]
+    # cut A: efc_tree
+    sessA = ctx.session(base)
+    fa_def, fa = facts_A(S, ref, cuts["t_def"]), facts_A(S, ref, t)
+    if part == "rows":
+      for qn, (goal, what) in fa_def.items():
+        ctx.prove(sessA, qn, goal, True, names=names, replay=rp(qn), desc=f"{jac} ntree={ntree}: {what}")
+    # cut B: islands of dofs / rows, counts
+    baseA = base + [zb(g) for g, _ in fa.values()]
+    sessB = ctx.session(baseA)
+    fb_def, fb = facts_B(S, ref, l, nis, t, Bd), facts_B(S, ref, l, nis, t, B)
+    dof_q = ("dof_island/", "count/island_nv/", "island_nv/", "island_idofadr/", "island_dofadr/", "nidof", "dof2idof", "idof2dof", "dof_islandid/")
+    for qn, (goal, what) in fb_def.items():
+      if qn.startswith(dof_q) == (part == "dofs"):
+        ctx.prove(sessB, qn, goal, True, names=names, replay=rp(qn), desc=f"{jac} ntree={ntree}: {what}")
+    # pure consequences used below
+    baseB = baseA + [zb(g) for g, _ in fb.values()]
+    sessG = ctx.session(baseB)
+    gl = glue_B(S, ref, l, nis, B)
+    for qn, f in gl.items():
+      ctx.prove(sessG, qn, f, True, names=names, desc="lemma: the cut constants equal the reference islands / totals")
+    # final: prefix sums, recounts and maps over the cut constants
+    # (the label definitions stay in the background so that a counterexample is a complete, replayable input)
+    sessC = ctx.session(baseB + [zb(f) for f in gl.values()])
+    ctx.reach(sessC, "twin:map-island-with-two-rows", And(cmp("==", nis, 2), cmp("==", B["nefc"][1], 2), cmp("==", B["nv"][0], 2)))
+    for qn, (goal, guard, what) in spec_map(S, ref, l, nis, B).items():
+      if qn.startswith(dof_q) == (part == "dofs"):
+        ctx.prove(sessC, qn, goal, guard, names=names, replay=rp(qn), desc=f"{jac} ntree={ntree}: {what}")
     if part == "dofs":
-      obligations(sessC, [(key, o) for key, tid, o in hr.obl[cuts["nobl"]["fill1"] :]], "", "map")
+      o = cuts["nobl"]
+      obligations(sessA, [(key, ob) for key, tid, ob in hr.obl[o["fill1"] : o["A"]]], "", "map")
+      obligations(sessB, [(key, ob) for key, tid, ob in hr.obl[o["A"] : o["B"]]], "", "map")
+      obligations(sessC, [(key, ob) for key, tid, ob in hr.obl[o["B"] :]], "", "map")
 
   return (f"islands/{jac}/ntree{ntree}/{part}", run)
 
@@ -843,6 +996,6 @@ if __name__ == "__main__":
     run_real(sp_["config"], sp_["arrays"], sp_["stage"], sp_.get("cut"), debug=True)
     print("NOT-REPRODUCED: stage completed under the bounds-checked build")
     sys.exit(3)
-  ok_, text_ = run_replay(sys.argv[1])
-  print(("REPRODUCED: " if ok_ else "NOT-REPRODUCED: ") + str(text_))
+  ok_, text_ = replay_inproc(sys.argv[1])
+  print(("REPRODUCED: " if ok_ else "NOT-REPRODUCED: ") + str(text_).replace("\n", " "))
   sys.exit(0 if ok_ else 3)
